@@ -324,6 +324,12 @@ def refine(ctx, rec):
       ng = float(np.linalg.norm(m['gamma']))
       if cfg['graft']['grafting_type'] != 'none' and nb > 0:
         base_err = 2.0 * base_err * ng / nb
+      if u == U32 and cfg['graft']['grafting_type'] != 'none' and \
+          0 < nb < 1e-15:
+        # float32 norm of the direction underflows in the implementation
+        ctx.ev('step_update', 'vacuous')
+        ctx.ev('step_momentum', 'vacuous')
+        continue
     pm = m['pre_momentum']
     tr_prev = view.trace(prev, i)
     mag = (float(np.max(np.abs(pm))) if np.size(pm) else 0.0) + (
